@@ -44,6 +44,9 @@ P = {
  "C20": ("model_checking", "Durability.tla liveness (every reply is eventually acknowledged) checked by TLC under fairness; hook traces of concurrent real runs validated against TraceDurability.tla with a wall-clock deadline",
          "TLC checks EveryAppendCompletes on Durability.tla with liveness on (3 transactions, rollover, failed write, weak fairness of fsync/publish/reply/rollover). Concurrent clients run every sync configuration on a real Database with frequent rollovers; each call must return within the deadline and each run's hook trace must be accepted by TraceDurability.tla, which requires no reply left unacknowledged.",
          "Bounded time = liveness under fairness in the model + 5 s wall-clock bound on real runs; never-syncing library configuration excluded.", "5/C20", "h-store"),
+ "C19": ("model_checking", "Space.tla (estimate vs stored size, rollover rule) model-checked by TLC; its fill classes expanded to every byte of free space around both sizes on a real Database",
+         "TLC checks NoOverflow/AcceptedWithinOneRetry/AcceptedAtOnce for every fill level and (estimate, stored) pair of the writer thread's space rule; the class table (free vs estimate, free vs stored, compression shrinks/same) with prescribed outcome and rollover count is expanded on a real Database: segment sizes x compression x payload kinds x shapes x lengths, the live segment filled so that free space takes every value from min(estimate,stored)-2 to max+2, then the append's outcome, rollover and readability are compared.",
+         "Domain: transactions whose uncompressed estimate and stored size fit an empty segment; stored size is measured on a scratch database (it can differ by a byte or two between runs with compression on, which does not affect the prescribed outcome).", "5/C19", "h-store"),
 }
 
 NOT_YET = "not yet built in this session (planned: see DESIGN.md section 5); no claim is made"
